@@ -1,6 +1,7 @@
 SPECIFICATION Spec
 CONSTANTS
   IgnorePatterns <- DataIgnorePatterns
+  EaExts <- DataEaExts
   SkipUnservable = FALSE
   SortedEnum = FALSE
   DotRuleAll = TRUE
